@@ -45,6 +45,11 @@ Accepted subset (anything else raises vlib.TranslatorError, which the runner tre
       self.relays.get(..) / self.relays[..] [.rendezvous_relay | .relay_early_count | .direction], cell.plaintext, cell.relay_early,
       cell.message[0], self.max_relay_early; in on_data: circuit, origin, sock_addr == circuit.hop.address,
       sock_addr[0] == circuit.hop.address[0], DataChecker.could_be_ipv8(data), self._prefix == data[:22], data[22];
+  * also accepted: module-level named integer constants (`NAME = 4`, `NAME = ExtendPayload.msg_id`) and `<Payload>.msg_id` in comparisons;
+    hoisted locals / aliases; `enumerate(x, start=k)`; guard clauses written flat or nested (the translator computes the condition of
+    every `return`/`raise` PATH, including the negations of earlier guards that returned, and identifies the two incoming guards by
+    meaning); a private helper method of the same class called as a statement with positional arguments is inlined (parameters renamed,
+    `if c: ...; return` + rest read as if/else);
   * statement shapes: the functions must keep their overall shape (guard-if with `return`/`raise`; the if/elif chain over the three
     tables; `direction = A if <ctype test> else B`; `self.encrypt_cell(cell, <dir>, <hops>)` / `self.decrypt_cell(...)` calls with
     positional arguments; logging calls, statistics (`bytes_up`, `beat_heart`) and f-string messages are ignored).
@@ -71,6 +76,79 @@ def fail(where, msg):
     raise TranslatorError(f"{where}: {msg}")
 
 
+
+# ---------------------------------------------------------------------------------------------------------------------
+# boolean terms are built as small trees and rendered in a canonical form: and/or flattened and sorted, double negation removed
+def t_not(t):
+    return t[1] if t[0] == "not" else ("not", t)
+
+
+def t_and(ts):
+    out = []
+    for t in ts:
+        out += t[1] if t[0] == "and" else [t]
+    return out[0] if len(out) == 1 else ("and", out)
+
+
+def t_or(ts):
+    out = []
+    for t in ts:
+        out += t[1] if t[0] == "or" else [t]
+    return out[0] if len(out) == 1 else ("or", out)
+
+
+def t_atoms(t, acc):
+    if t[0] == "atom":
+        acc.add(t[1])
+    elif t[0] == "not":
+        t_atoms(t[1], acc)
+    elif t[0] in ("and", "or"):
+        for x in t[1]:
+            t_atoms(x, acc)
+    else:
+        for x in t[1:]:
+            t_atoms(x, acc)
+    return acc
+
+
+def t_eval(t, env) -> bool:
+    k = t[0]
+    if k == "atom":
+        return env[t[1]]
+    if k == "not":
+        return not t_eval(t[1], env)
+    if k == "and":
+        return all(t_eval(x, env) for x in t[1])
+    if k == "or":
+        return any(t_eval(x, env) for x in t[1])
+    return t_eval(t[2], env) if t_eval(t[1], env) else t_eval(t[3], env)
+
+
+def t_implies(a, b) -> bool:
+    """a => b for every assignment of the atoms (atoms are treated as independent booleans; at most a dozen of them)"""
+    names = sorted(t_atoms(b, t_atoms(a, set())))
+    if len(names) > 14:
+        return False
+    for bits in range(1 << len(names)):
+        env = {n: bool(bits >> i & 1) for i, n in enumerate(names)}
+        if t_eval(a, env) and not t_eval(b, env):
+            return False
+    return True
+
+
+def render(t) -> str:
+    k = t[0]
+    if k == "atom":
+        return t[1]
+    if k == "not":
+        return f"(!{render(t[1])})"
+    if k in ("and", "or"):
+        return "(" + (" && " if k == "and" else " || ").join(sorted(render(x) for x in t[1])) + ")"
+    if k == "ite":
+        return f"(if {render(t[1])} then {render(t[2])} else {render(t[3])})"
+    raise AssertionError(k)
+
+
 # ---------------------------------------------------------------------------------------------------------------------
 class Func:
     """one Python function: local definitions, canonicalisation of atoms, boolean expressions -> Lean"""
@@ -85,6 +163,8 @@ class Func:
         if f is None:
             fail(self.where, "function not found")
         self.fn = f
+        self.methods = {n.name: n for n in c.body if isinstance(n, (ast.FunctionDef, ast.AsyncFunctionDef))}
+        self.consts = module_consts(path, tree)
         self.body = [s for s in f.body if not (isinstance(s, ast.Expr) and isinstance(s.value, ast.Constant))]
         self.locals: dict[str, ast.expr] = {}
         if cell_param is not None:
@@ -133,65 +213,115 @@ class Func:
     def nat(self, node) -> str:
         if isinstance(node, ast.Constant) and type(node.value) is int and node.value >= 0:
             return str(node.value)
+        if isinstance(node, ast.Name) and node.id in self.consts and node.id not in self.locals:
+            return str(self.consts[node.id])        # a module-level named constant, resolved to its literal value
+        m = re.fullmatch(r"(\w+)\.msg_id", ast.unparse(node))
+        if m and m.group(1) in MSG_IDS:
+            return str(MSG_IDS[m.group(1)])
         return self.atom(node, "nat")[0]
 
     def bexpr(self, n) -> str:
+        return render(self.bt(n))
+
+    def bt(self, n):
+        """boolean expression -> term tree"""
         if isinstance(n, ast.BoolOp):
-            # canonical form: nested and/and (or/or) flattened, operands sorted — `a and b` and `b and a` give the same Lean term
-            # (Python's evaluation order only matters for exceptions, which the guards' atoms cannot raise once a cell is parsed)
-            op = " && " if isinstance(n.op, ast.And) else " || "
-            parts = []
-            for v in n.values:
-                if isinstance(v, ast.BoolOp) and type(v.op) is type(n.op):
-                    parts += [self.bexpr(w) for w in v.values]
-                else:
-                    parts.append(self.bexpr(v))
-            return "(" + op.join(sorted(parts)) + ")"
+            parts = [self.bt(v) for v in n.values]
+            return t_and(parts) if isinstance(n.op, ast.And) else t_or(parts)
         if isinstance(n, ast.UnaryOp) and isinstance(n.op, ast.Not):
-            return f"(!{self.bexpr(n.operand)})"
+            return t_not(self.bt(n.operand))
         if isinstance(n, ast.IfExp):
-            return f"(if {self.bexpr(n.test)} then {self.bexpr(n.body)} else {self.bexpr(n.orelse)})"
+            return ("ite", self.bt(n.test), self.bt(n.body), self.bt(n.orelse))
         if isinstance(n, ast.Compare):
             if len(n.ops) != 1:
                 fail(self.where, "comparison chains are outside the subset")
             op, lhs, rhs = n.ops[0], n.left, n.comparators[0]
-            if isinstance(op, (ast.In, ast.NotIn)) and self.canon(n) in self.atoms:
-                return self.atoms[self.canon(n)][0]
-            if isinstance(op, (ast.Is, ast.IsNot)) and self.canon(n) in self.atoms:
-                return self.atoms[self.canon(n)][0]
+            whole = self.canon(n)
+            if whole in self.atoms:                 # a comparison that is itself an atom (address equality, `x in self.table`, `is None`)
+                return ("atom", self.atoms[whole][0])
             if isinstance(op, (ast.In, ast.NotIn)):
                 rc = self.canon(rhs)
                 if rc == "NO_CRYPTO_PACKETS":
-                    s = f"(genNoCryptoIds.contains {self.nat(lhs)})"
+                    t = ("atom", f"(genNoCryptoIds.contains {self.nat(lhs)})")
                 elif rc == "self.exit_msg_ids":
                     self.atom(lhs, "nat")
-                    s = "registered"
+                    t = ("atom", "registered")
                 elif isinstance(rhs, (ast.List, ast.Tuple)) and all(isinstance(e, ast.Name) and e.id in CTYPES for e in rhs.elts):
                     self.atom(lhs, "ctype")
-                    s = "(" + " || ".join(f"ct == {CTYPES[e.id]}" for e in rhs.elts) + ")"
+                    t = t_or([("atom", f"(ct == {CTYPES[e.id]})") for e in rhs.elts])
                 else:
                     fail(self.where, f"`in {rc}` is outside the subset")
-                return f"(!{s})" if isinstance(op, ast.NotIn) else s
+                return t_not(t) if isinstance(op, ast.NotIn) else t
             lc = self.canon(lhs)
             if lc in self.atoms and self.atoms[lc][1] == "ctype" and isinstance(rhs, ast.Name) and rhs.id in CTYPES \
                     and isinstance(op, (ast.Eq, ast.NotEq)):
-                s = f"(ct == {CTYPES[rhs.id]})"
-                return f"(!{s})" if isinstance(op, ast.NotEq) else s
-            whole = self.canon(n)
-            if whole in self.atoms:                 # a comparison that is itself an atom (address equality)
-                return self.atoms[whole][0]
+                t = ("atom", f"(ct == {CTYPES[rhs.id]})")
+                return t_not(t) if isinstance(op, ast.NotEq) else t
             tab = {ast.Eq: "==", ast.NotEq: "!=", ast.Lt: "<", ast.LtE: "≤", ast.Gt: ">", ast.GtE: "≥"}
             if type(op) not in tab:
                 fail(self.where, f"operator {type(op).__name__} is outside the subset")
-            a, b = self.nat(lhs), self.nat(rhs)
+            x, y = self.nat(lhs), self.nat(rhs)
             if isinstance(op, (ast.Eq, ast.NotEq)):
-                return f"({a} {tab[type(op)]} {b})"
-            return f"(decide ({a} {tab[type(op)]} {b}))"
+                return ("atom", f"({x} {tab[type(op)]} {y})")
+            return ("atom", f"(decide ({x} {tab[type(op)]} {y}))")
         if isinstance(n, ast.Call):
             c = self.canon(n)
             if c in self.atoms:
-                return self.atoms[c][0]
-        return self.atom(n, "bool")[0]
+                return ("atom", self.atoms[c][0])
+        return ("atom", self.atom(n, "bool")[0])
+
+    # ---- helpers for statement shapes -------------------------------------------------------------------------------------
+    def inline(self, stmts):
+        """replace `self._helper(args)` statements by the body of the private helper method of the same class (positional arguments,
+        parameters renamed to the argument expressions) and turn `if c: ...; return` + rest into if/else"""
+        out = []
+        for st in stmts:
+            call = st.value if isinstance(st, ast.Expr) and isinstance(st.value, ast.Call) else None
+            if call is not None and isinstance(call.func, ast.Attribute) and ast.unparse(call.func.value) == "self" \
+                    and call.func.attr.startswith("_") and not call.keywords and call.func.attr in self.methods:
+                m = self.methods[call.func.attr]
+                params = [a.arg for a in m.args.args][1:]
+                if len(params) != len(call.args) or m.args.vararg or m.args.kwarg:
+                    fail(self.where, f"cannot inline {call.func.attr}: argument shape")
+                sub = dict(zip(params, call.args))
+
+                class R(ast.NodeTransformer):
+                    def visit_Name(s, n):  # noqa: N802, N805
+                        return copy.deepcopy(sub[n.id]) if n.id in sub else n
+                body = [R().visit(copy.deepcopy(b)) for b in m.body
+                        if not (isinstance(b, ast.Expr) and isinstance(b.value, ast.Constant))]
+                for b in body:
+                    for x in ast.walk(b):
+                        if isinstance(x, ast.Assign) and len(x.targets) == 1 and isinstance(x.targets[0], ast.Name) \
+                                and x.targets[0].id not in self.locals:
+                            self.locals[x.targets[0].id] = x.value
+                out += self.inline(normalize_returns(body))
+            else:
+                out.append(st)
+        return out
+
+    def path_guards(self, stmts):
+        """conditions (term trees) under which a `return` / `raise` in `stmts` is reached, in source order; nested guard-ifs are
+        followed, and a guard that has returned contributes its negation to everything after it on the same level"""
+        out = []
+
+        def walk(sts, conds):
+            negs = []
+            for st in sts:
+                if ignorable(st) or not isinstance(st, ast.If) or st.orelse:
+                    continue
+                body = [b for b in st.body if not ignorable(b)]
+                g = self.bt(st.test)
+                if len(body) == 1 and isinstance(body[0], (ast.Return, ast.Raise)):
+                    here = t_and(conds + [g])
+                    # "no earlier guard on this level has fired": only the negations that `here` does not already imply are kept
+                    out.append(t_and(conds + [n for n in negs if not t_implies(here, n)] + [g]))
+                    negs.append(t_not(g))
+                elif body and all(isinstance(b, ast.If) for b in body):
+                    here = t_and(conds + [g])
+                    walk(body, conds + [n for n in negs if not t_implies(here, n)] + [g])
+        walk(stmts, [])
+        return out
 
     def direction(self, n) -> str:
         """FORWARD / BACKWARD / a local defined as `A if <test> else B`"""
@@ -203,10 +333,56 @@ class Func:
             return f"(if {self.bexpr(n.test)} then {self.direction(n.body)} else {self.direction(n.orelse)})"
         fail(self.where, f"direction expression `{ast.unparse(n)}` is outside the subset")
 
+MSG_IDS: dict[str, int] = {}
+
+
+def load_msg_ids():
+    if not MSG_IDS:
+        for c in ast.parse((REPO / PAYLOAD).read_text()).body:
+            if isinstance(c, ast.ClassDef):
+                for st in c.body:
+                    if isinstance(st, ast.Assign) and isinstance(st.targets[0], ast.Name) and st.targets[0].id == "msg_id" \
+                            and isinstance(st.value, ast.Constant) and type(st.value.value) is int:
+                        MSG_IDS[c.name] = st.value.value
+    return MSG_IDS
+
+
+def module_consts(path, tree) -> dict[str, int]:
+    """module-level `NAME = <non-negative int>` and `NAME = <PayloadClass>.msg_id`"""
+    load_msg_ids()
+    out = {}
+    for st in tree.body:
+        if isinstance(st, ast.Assign) and len(st.targets) == 1 and isinstance(st.targets[0], ast.Name):
+            v = st.value
+            m = re.fullmatch(r"(\w+)\.msg_id", ast.unparse(v))
+            if isinstance(v, ast.Constant) and type(v.value) is int and v.value >= 0:
+                out[st.targets[0].id] = v.value
+            elif m and m.group(1) in MSG_IDS:
+                out[st.targets[0].id] = MSG_IDS[m.group(1)]
+    return out
+
+
+def normalize_returns(stmts):
+    """`if c: A; return` followed by B   ->   `if c: A else: B`;  a trailing bare `return` is dropped"""
+    out = []
+    for i, st in enumerate(stmts):
+        if isinstance(st, ast.If) and not st.orelse and st.body and isinstance(st.body[-1], ast.Return) and st.body[-1].value is None \
+                and i + 1 < len(stmts):
+            new = ast.If(test=st.test, body=st.body[:-1] or [ast.Pass()], orelse=normalize_returns(stmts[i + 1:]))
+            return out + [new]
+        if isinstance(st, ast.Return) and st.value is None and i == len(stmts) - 1:
+            continue
+        out.append(st)
+    return out
+
 
 def ignorable(st) -> bool:
     """logging, statistics, message strings"""
     s = ast.unparse(st)
+    if isinstance(st, ast.Pass):
+        return True
+    if isinstance(st, ast.Assign) and len(st.targets) == 1 and isinstance(st.targets[0], ast.Name) and "(" not in ast.unparse(st.value).replace("len(", ""):
+        return True         # a plain local alias / hoisted sub-expression (its uses are resolved through Func.locals)
     return (s.startswith("self.logger.") or ".bytes_up" in s or ".bytes_down" in s or ".beat_heart()" in s
             or (isinstance(st, ast.Assign) and isinstance(st.value, ast.JoinedStr)))
 
@@ -339,11 +515,11 @@ def translate() -> tuple[str, dict]:
     tries = [s for s in f.body if isinstance(s, ast.Try)]
     if len(tries) != 1:
         fail(f.where, "exactly one try block expected")
-    tb = [s for s in tries[0].body if not ignorable(s)]
-    g = guard_ifs(tb[:1])
+    tb = f.inline([s for s in tries[0].body if not ignorable(s)])
+    g = f.path_guards(tb[:1])
     if len(g) != 1:
         fail(f.where, "the try block must start with the `raise CryptoException` guard")
-    no_key = f.bexpr(g[0])
+    no_key = render(g[0])
     rest = tb[1:]
     if len(rest) != 1 or not isinstance(rest[0], ast.If):
         fail(f.where, "after the guard one if/elif chain over the tables is expected")
@@ -388,12 +564,19 @@ def translate() -> tuple[str, dict]:
     # ---- incoming_crypto ---------------------------------------------------------------------------------------------
     f = Func(CRYPTO, "PythonCryptoEndpoint", "incoming_crypto")
     base_atoms(f)
-    g = guard_ifs([s for s in f.body if not isinstance(s, ast.Try)])
+    g = f.path_guards([s for s in f.body if not isinstance(s, ast.Try)])
     if len(g) != 2:
-        fail(f.where, f"two `return None` guards before the try block expected, found {len(g)}")
-    unknown, nokeys = f.bexpr(g[0]), f.bexpr(g[1])
+        fail(f.where, f"two `return None` paths before the try block expected, found {len(g)}")
+    # told apart by meaning, not by position: the "no keys yet" path is the one that looks at circuit.hops
+    a, b = render(g[0]), render(g[1])
+    if "hopsNonEmpty" in b and "hopsNonEmpty" not in a:
+        unknown, nokeys = a, b
+    elif "hopsNonEmpty" in a and "hopsNonEmpty" not in b:
+        unknown, nokeys = b, a
+    else:
+        fail(f.where, "cannot tell the unknown-circuit guard from the no-keys guard")
     tries = [s for s in f.body if isinstance(s, ast.Try)]
-    tb = [s for s in tries[0].body if not ignorable(s)] if len(tries) == 1 else []
+    tb = f.inline([s for s in tries[0].body if not ignorable(s)]) if len(tries) == 1 else []
     if len(tb) != 1 or not isinstance(tb[0], ast.If):
         fail(f.where, "one if/elif chain in the try block expected")
     in_order, inn = [], {}
@@ -459,7 +642,7 @@ def translate() -> tuple[str, dict]:
         rl_plain, rl_early = b, a
     else:
         fail(f.where, "cannot tell the plaintext guard from the relay_early guard")
-    tb = [s for s in f.body[tries[0]].body if not ignorable(s)]
+    tb = [s for s in f.inline([s for s in f.body[tries[0]].body if not ignorable(s)]) if not ignorable(s)]
     if len(tb) != 1 or not isinstance(tb[0], ast.If) or f.canon(tb[0].test) != nr + ".rendezvous_relay":
         fail(f.where, "try block: `if next_relay.rendezvous_relay:` expected")
     rb = [s for s in tb[0].body if not ignorable(s)]
@@ -501,7 +684,10 @@ def translate() -> tuple[str, dict]:
         loops = [s for s in f.body if isinstance(s, ast.For)]
         if len(loops) != 1:
             fail(f.where, "one for loop over the hops expected")
-        it = re.sub(r"^enumerate\((.*)\)$", r"\1", ast.unparse(loops[0].iter))
+        itn = loops[0].iter
+        if isinstance(itn, ast.Call) and ast.unparse(itn.func) == "enumerate" and itn.args:
+            itn = itn.args[0]           # enumerate(x) / enumerate(x, start=k): the counter only numbers the layers in messages
+        it = ast.unparse(itn)
         hops = f.fn.args.vararg.arg if f.fn.args.vararg else None
         if it == f"reversed({hops})":
             rev = True
